@@ -97,6 +97,75 @@ Example C06_hypotheses_exclude_witnesses :
   ~ okq (v_q w_connect) /\ ~ okq (v_q w_csn_connect).
 Proof. exact hypotheses_exclude_lemma. Qed.
 
+
+(* ---- the same contract at the strength the proofs have (audit round) ---- *)
+(* 21 of the 25 proved query kinds (all table-maximum queries, the three KV sub-index queries,
+   NodeServices) need NEITHER coherence NOR safe writes: any reachable state, any write *)
+Theorem C06_never_missed_plain :
+  forall hi s i c q, Reach hi s -> hi < i -> plainq q -> res q (apply i c s) <> res q s ->
+    i <= idx q (apply i c s) /\ idx q s < idx q (apply i c s) /\ fires (ws q s) (touched i c s) = true.
+Proof. exact never_missed_plain_lemma. Qed.
+Theorem C06_monotone_plain :
+  forall hi s i c q, Reach hi s -> hi < i -> plainq q -> (forall u, c <> Reap u) -> idx q s <= idx q (apply i c s).
+Proof. exact monotone_plain. Qed.
+
+(* high-water form: a changed result reports at least the index of the write; no state reports more
+   than the index of its last write; hence the new index exceeds the index reported by ANY state of
+   the history so far (s0), also one from before a tombstone reap lowered the index *)
+Theorem C06_highwater :
+  forall hi s i c q, Reach hi s -> Coherent s -> hi < i -> safe_cmd c s -> safe_query q ->
+    res q (apply i c s) <> res q s -> i <= idx q (apply i c s).
+Proof. exact highwater_okq. Qed.
+Theorem C06_index_bounded : forall hi s q, Reach hi s -> safe_query q -> idx q s <= hi.
+Proof. exact idx_bounded. Qed.
+Theorem C06_above_every_earlier :
+  forall hi0 s0 hi s i c q, Reach hi0 s0 -> hi0 <= hi -> Reach hi s -> Coherent s -> hi < i -> safe_cmd c s ->
+    safe_query q -> res q (apply i c s) <> res q s -> idx q s0 < idx q (apply i c s).
+Proof. exact above_every_earlier_lemma. Qed.
+Theorem C06_above_every_earlier_plain :
+  forall hi0 s0 hi s i c q, Reach hi0 s0 -> hi0 <= hi -> Reach hi s -> hi < i -> plainq q ->
+    res q (apply i c s) <> res q s -> idx q s0 < idx q (apply i c s).
+Proof. exact above_every_earlier_plain_lemma. Qed.
+
+(* the loop, tightly: XIndex i is the floored index of an EXECUTED round n (all earlier rounds were
+   woken), compared with the requested minimum or with the floored index of a round j <= n that
+   really replaced it (not-found after an earlier not-found, not-changed after any earlier round) *)
+Theorem C06_loop_tight :
+  forall min rounds i, min <> 0 -> blocking_query min rounds = XIndex i ->
+    exists n raw e w, rounds !! n = Some (raw, e, w) /\ i = N.max 1 raw /\
+      forallb fired (take n rounds) = true /\
+      exists m, m < i /\ (m = min \/ exists j rj ej wj, (j <= n)%nat /\ replaces rounds j /\
+                                                rounds !! j = Some (rj, ej, wj) /\ m = N.max 1 rj).
+Proof. exact loop_contract_tight. Qed.
+Example C06_loop_exits_reachable :
+  blocking_query 10 [(10, ENone, Fired); (12, ENone, Timeout)] = XIndex 12 /\
+  blocking_query 10 [(10, ENone, Timeout)] = XTimeout 10 /\
+  blocking_query 10 [(10, ENone, Abandoned)] = XAbandon 10 /\
+  blocking_query 0 [(0, ENone, Timeout)] = XNonBlocking 1 /\
+  blocking_query 10 [(3, ENotFound, Fired); (5, ENotFound, Fired); (7, ENone, Timeout)] = XIndex 7.
+Proof. exact loop_exits_reachable. Qed.
+
+(* the wake of the blocked round IS the model's fires (not a scripted constant); a watch that stays
+   silent leaves the query blocked until its timeout with the stale index *)
+Theorem C06_wakes_derived :
+  forall hi s i c q, Reach hi s -> Coherent s -> hi < i -> 1 < i -> safe_cmd c s -> safe_query q ->
+    res q (apply i c s) <> res q s ->
+    forall w rest,
+      loop (LS (reported q s) false false)
+           ((idx q s, ENone, wake_of (fires (ws q s) (touched i c s))) :: (idx q (apply i c s), ENone, w) :: rest)
+      = XIndex (reported q (apply i c s)).
+Proof. exact wakes_derived_lemma. Qed.
+Theorem C06_silent_watch_times_out :
+  forall q s rest,
+    loop (LS (reported q s) false false) ((idx q s, ENone, wake_of false) :: rest) = XTimeout (reported q s).
+Proof. exact no_fire_times_out_lemma. Qed.
+
+(* non-vacuity of safe_cmd on EXISTING rows: a service update (same id and name) with its checks *)
+Example C06_safe_update_met :
+  Reach 8 ex_state /\ Coherent ex_state /\ safe_cmd ex_update ex_state /\
+  res (QCSN "web") (apply 9 ex_update ex_state) <> res (QCSN "web") ex_state.
+Proof. exact (conj ex_reach (conj ex_coherent (conj ex_update_safe ex_update_changes))). Qed.
+
 Print Assumptions C06_never_missed_refuted.
 Print Assumptions C06_never_missed_refuted_classes.
 Print Assumptions C06_never_missed_partial.
@@ -109,3 +178,14 @@ Print Assumptions C06_wakes.
 Print Assumptions C06_deltree_repaired.
 Print Assumptions C06_hypotheses_met.
 Print Assumptions C06_hypotheses_exclude_witnesses.
+Print Assumptions C06_never_missed_plain.
+Print Assumptions C06_monotone_plain.
+Print Assumptions C06_highwater.
+Print Assumptions C06_index_bounded.
+Print Assumptions C06_above_every_earlier.
+Print Assumptions C06_above_every_earlier_plain.
+Print Assumptions C06_loop_tight.
+Print Assumptions C06_loop_exits_reachable.
+Print Assumptions C06_wakes_derived.
+Print Assumptions C06_silent_watch_times_out.
+Print Assumptions C06_safe_update_met.
